@@ -19,6 +19,7 @@ package main
 
 import (
 	"bytes"
+	"encoding/hex"
 	"encoding/json"
 	"fmt"
 	"math/rand"
@@ -38,7 +39,11 @@ type c10ForkCase struct {
 	Src    string            `json:"src"`
 	Fqid   string            `json:"fqid"` // without the ID.<psid>. prefix
 	Outs   map[string]string `json:"outs,omitempty"`
-	Expect []string          `json:"expect,omitempty"`
+	Expect []string          `json:"expect,omitempty"` // corpus cases only; generated cases ask the model
+	// input of the Lean model Martian.ForkOrder (driver op C10.forkorder) whose reply is the expected order
+	ModelRoots string `json:"model_roots,omitempty"`
+	ModelTable string `json:"model_table,omitempty"`
+	ModelRt    string `json:"model_rt,omitempty"`
 }
 
 const c10ForkStages = `stage STAGE(
@@ -93,22 +98,30 @@ func c10ForkMapLit(rng *rand.Rand, keys []string, indent string) string {
 	return sb.String()
 }
 
-// the list order the contract above gives
-func c10ForkExpected(outer []string, inner [][]string) []string {
-	var out []string
-	sorted := make([][]string, len(inner))
-	for i, ks := range inner {
-		s := append([]string(nil), ks...)
-		sort.Strings(s)
-		sorted[i] = s
-		out = append(out, outer[i]+"/fork_"+core.VerifMakeKeySafe(s[0]))
+// the model's notation: m<hex>,<hex>,… for a key set (in the order given: the model sorts)
+func c10ForkModelKeys(keys []string) string {
+	hs := make([]string, len(keys))
+	for i, k := range keys {
+		hs[i] = hex.EncodeToString([]byte(k))
 	}
-	for i, s := range sorted {
-		for _, k := range s[1:] {
-			out = append(out, outer[i]+"/fork_"+core.VerifMakeKeySafe(k))
+	return "m" + strings.Join(hs, ",")
+}
+
+// a fork of the model's reply (`i0+k6162`) as the fork id string the real code prints (`fork0/fork_ab`)
+func c10ForkModelIdString(fork string) string {
+	parts := strings.Split(fork, "+")
+	for i, p := range parts {
+		switch {
+		case strings.HasPrefix(p, "i"):
+			parts[i] = "fork" + p[1:]
+		case strings.HasPrefix(p, "k"):
+			b, _ := hex.DecodeString(p[1:])
+			parts[i] = "fork_" + core.VerifMakeKeySafe(string(b))
+		default:
+			parts[i] = "fork?" + p
 		}
 	}
-	return out
+	return strings.Join(parts, "/")
 }
 
 func c10ForkCases(rng *rand.Rand) []c10ForkCase {
@@ -130,14 +143,16 @@ func c10ForkCases(rng *rand.Rand) []c10ForkCase {
 			}
 		}
 		var lit strings.Builder
-		var outer []string
+		var roots string
+		var table []string
 		if outerKind == "array" {
 			lit.WriteString("[\n")
 			for i, ks := range inner {
 				lit.WriteString("        " + c10ForkMapLit(rng, ks, "        ") + ",\n")
-				outer = append(outer, fmt.Sprintf("fork%d", i))
+				table = append(table, fmt.Sprintf("1:i%d=%s", i, c10ForkModelKeys(ks)))
 			}
 			lit.WriteString("    ]")
+			roots = fmt.Sprintf("a%d;d", n)
 		} else {
 			okeys := c10ForkKeys(rng, n, map[string]bool{})
 			lit.WriteString("{\n")
@@ -145,23 +160,15 @@ func c10ForkCases(rng *rand.Rand) []c10ForkCase {
 				fmt.Fprintf(&lit, "        %q: %s,\n", okeys[i], c10ForkMapLit(rng, ks, "        "))
 			}
 			lit.WriteString("    }")
-			// outer forks come in ascending outer key order: permute the inner lists accordingly
-			idx := make([]int, n)
-			for i := range idx {
-				idx[i] = i
+			for i, ks := range inner {
+				table = append(table, fmt.Sprintf("1:k%s=%s", hex.EncodeToString([]byte(okeys[i])), c10ForkModelKeys(ks)))
 			}
-			sort.Slice(idx, func(a, b int) bool { return okeys[idx[a]] < okeys[idx[b]] })
-			sortedInner := make([][]string, n)
-			for j, i := range idx {
-				outer = append(outer, "fork_"+core.VerifMakeKeySafe(okeys[i]))
-				sortedInner[j] = inner[i]
-			}
-			inner = sortedInner
+			roots = c10ForkModelKeys(okeys) + ";d"
 		}
 		src := c10ForkStages + "\nmap call INNER(\n    nums = split " + lit.String() + ",\n)\n"
 		cases = append(cases, c10ForkCase{Name: fmt.Sprintf("static-%s-outer-%d", outerKind, len(cases)),
 			Class: "static-ragged-map-in-" + outerKind + "-call", Src: src, Fqid: "INNER.STAGE",
-			Expect: c10ForkExpected(outer, inner)})
+			ModelRoots: roots, ModelTable: strings.Join(table, "/"), ModelRt: "."})
 	}
 	// ---- run time: the map (of maps) is the output of an upstream stage ----
 	{
@@ -171,12 +178,6 @@ func c10ForkCases(rng *rand.Rand) []c10ForkCase {
 			m[k] = i
 		}
 		outs, _ := json.Marshal(map[string]interface{}{"m": m})
-		sorted := append([]string(nil), keys...)
-		sort.Strings(sorted)
-		var expect []string
-		for _, k := range sorted {
-			expect = append(expect, "fork_"+core.VerifMakeKeySafe(k))
-		}
 		src := `stage PRODUCE(
     in  int      x,
     out map<int> m,
@@ -212,15 +213,15 @@ call TOP(
 )
 `
 		cases = append(cases, c10ForkCase{Name: "runtime-single", Class: "runtime-map-call", Src: src, Fqid: "TOP.STAGE",
-			Outs: map[string]string{"TOP.PRODUCE": string(outs)}, Expect: expect})
+			Outs:       map[string]string{"TOP.PRODUCE": string(outs)},
+			ModelRoots: "d", ModelTable: ".", ModelRt: "0:.=" + c10ForkModelKeys(keys)})
 	}
 	{
 		// (MRO has no map<map<..>>: the outer collection is an array of maps)
 		n := 2 + rng.Intn(3)
 		taken := map[string]bool{}
 		var mm []map[string]int
-		var outer []string
-		var inner [][]string
+		rtTable := []string{fmt.Sprintf("0:.=a%d", n)}
 		for o := 0; o < n; o++ {
 			ks := c10ForkKeys(rng, 2+rng.Intn(11), taken)
 			m := map[string]int{}
@@ -228,8 +229,7 @@ call TOP(
 				m[k] = i
 			}
 			mm = append(mm, m)
-			outer = append(outer, fmt.Sprintf("fork%d", o))
-			inner = append(inner, ks)
+			rtTable = append(rtTable, fmt.Sprintf("1:i%d=%s", o, c10ForkModelKeys(ks)))
 		}
 		outs, _ := json.Marshal(map[string]interface{}{"mm": mm})
 		src := `stage PRODUCE(
@@ -262,7 +262,8 @@ call TOP(
 )
 `
 		cases = append(cases, c10ForkCase{Name: "runtime-nested", Class: "runtime-ragged-map-in-array-call", Src: src, Fqid: "TOP.INNER.STAGE",
-			Outs: map[string]string{"TOP.PRODUCE": string(outs)}, Expect: c10ForkExpected(outer, inner)})
+			Outs:       map[string]string{"TOP.PRODUCE": string(outs)},
+			ModelRoots: "d;d", ModelTable: ".", ModelRt: strings.Join(rtTable, "/")})
 	}
 	return cases
 }
@@ -369,6 +370,33 @@ func c10ForkOrder(c *Ctx, rt *core.Runtime) {
 		}
 	}
 	cases = append(cases, c10ForkCases(c.Rng)...)
+	// the expected order = the reply of the Lean model Martian.ForkOrder for the same input
+	{
+		var reqs [][]string
+		var idx []int
+		for i := range cases {
+			if cs := &cases[i]; cs.ModelRoots != "" {
+				reqs = append(reqs, []string{"C10.forkorder", cs.ModelRoots, cs.ModelTable, cs.ModelRt})
+				idx = append(idx, i)
+			}
+		}
+		if len(reqs) > 0 && c.Drv != nil {
+			for j, rep := range c.Drv.AskBatch(reqs) {
+				cs := &cases[idx[j]]
+				if rep == "bad-op" || rep == "" {
+					r.note("fork-order case %s: the model rejected %v", cs.Name, reqs[j])
+					continue
+				}
+				cs.Expect = nil
+				if rep != "." {
+					for _, f := range strings.Split(rep, ";") {
+						cs.Expect = append(cs.Expect, c10ForkModelIdString(f))
+					}
+				}
+				r.hist("fork-order-expectation:from the Lean model")
+			}
+		}
+	}
 	first := make([]string, len(cases))
 	for i := range cases {
 		cs := &cases[i]
@@ -398,8 +426,8 @@ func c10ForkOrder(c *Ctx, rt *core.Runtime) {
 				got := strings.Fields(line[j+2:])
 				if cs.Expect != nil && strings.Join(got, " ") != strings.Join(cs.Expect, " ") {
 					r.violate(Violation{Kind: "property", Key: "C10:fork-order-not-sorted:" + cs.Class,
-						What: fmt.Sprintf("the forks of %s are not listed in the order of the sorted keys (%s, repetition %d): outer order x ascending inner keys, "+
-							"the expanded fork keeps its place with the smallest key", cs.Fqid, line[:j], rep),
+						What: fmt.Sprintf("the forks of %s are not listed in the order the Lean model Martian.ForkOrder gives for this input (%s, repetition %d): "+
+							"sorted keys, the expanded fork keeps its place with the smallest key, the others are appended", cs.Fqid, line[:j], rep),
 						Input: input, Impl: strings.Join(got, " "), Expect: strings.Join(cs.Expect, " "),
 						Broken: "Props.C10.forkKeyParts_order_independent (the fork keys are not sorted before they are enumerated)"})
 					return false
